@@ -36,10 +36,6 @@ CLAIMED = {
         text="Per-syllable mechanism (syll.rs:107-215): a segment-only output (one-slot feature matrix, [-node], plain IPA replacement) applied to one position leaves segment count, neighbours, stress and tone untouched for all bundles; a prosody-only output (all 9 stress combinations, optional tone; also routed through a long segment) leaves every segment bit-identical. Boundary insertion/deletion/metathesis are outside (transform does not finish under CBMC).",
         ref="DESIGN.md section 3, C14",
         note=BASE + "Assumed: the modified segment differs from its neighbours."),
-    "C16": dict(
-        text="The two hand-written loop nests of lib.rs (apply_rule_groups, apply_rules_trace) are executed for real with Rule::apply replaced by an arbitrary deterministic function (a solver-chosen table over an abstract 3-word domain, including failing rules): reported indices, reported states, unreported groups, the final state and run-of-prefix equalities are asserted against a reference simulation, for every table. Rendering of the trace is outside.",
-        ref="DESIGN.md section 3, C16",
-        note="Trusted: Kani/CBMC/CaDiCaL. Stub: Rule::apply -> symbolic table (kani::stub). Assumed: Rule::apply is a pure function of (rule, word). Bounds: <=2 words, <=3 groups, <=2 rules per group, unwind 6. Counterexamples cannot be replayed natively (the stub does not exist natively); the solver trace is the replay artefact."),
     "C03": dict(
         text="Environment-selection kernel: SubRule::match_before_env / match_after_env / context_match (#, $, IPA, one-slot matrix) with SegPos::increment/reversed and Word::reverse are executed on words of 3-4 segments in every syllabification with all word and context bundles symbolic, and compared with a straight-line reference walk emitted per shape (left neighbours right-to-left, right neighbours left-to-right, # past the edge, $ at a syllable edge). The scan, input matching and rewrite of whole-rule application are outside.",
         ref="DESIGN.md section 3, C03",
@@ -55,6 +51,7 @@ NOT_APPLICABLE = {
     "C11": "a statement about asca::run end to end (parsing, whole-rule application, rendering); the reachable fragment (the lib.rs loops) is claimed under C16 and says nothing about binding leaks",
     "C13": "synonym tables live in the two lexers (to_lowercase + 171-arm string match) and in parser follow-sets over token vectors; neither finishes symbolically",
     "C15": "alias lexer/parser + Word::render with romanisers + fill_segments: Strings and lazy_static tables throughout",
+    "C16": "tried and withdrawn: the two loop nests of lib.rs were driven for real under Kani with Rule::apply stubbed by a solver-chosen table, but Phrase/Word/Syllable clone followed by == (VecDeque::clone leaves a symbolic ring-buffer layout that == then has to case-split) exhausts 14 GB or 40 min even for one word and one rule, also with Syllable::clone stubbed; by the decision rule of DESIGN.md (minimal shape must finish in 5 min) it is not applicable",
     "C17": "error positions are produced by the lexers/parser and consumed by format!/String::repeat with symbolic counts",
     "C19": "behaviour of the asca binary: files, clap, stdout, serde_json",
     "C20": "project trees on disk, config lexer/parser calling is_file()/parse_rsca, process exit status",
